@@ -98,6 +98,7 @@ CONST_GROUPS = {
     "message": "internal/message",
     "security": "internal/security",
     "listener": "internal/network/listener",
+    "storage": "internal/provider/storage",
     "websocket": "internal/network/websocket",
     "cluster": "internal/service/cluster",
 }
@@ -350,6 +351,9 @@ def shrink(prop_cfg, session, want, known_flags, budget=60, target_op=None, targ
         return any(classify(r, known_flags).split(":")[0] == want and (target_op is None or opkey(r["op"]) == opkey(target_op))
                    and (r["I"] != "panic" or target_impl == "panic")
                    for r in res)
+    t_end = time.time() + float(os.environ.get("VERIF_SHRINK_SECONDS", "45"))
+    if os.environ.get("VERIF_NOSHRINK"):
+        return list(session)
     head = []
     cur = list(session)
     if cur and cur[0].split(" ")[0] == "reset":
@@ -358,7 +362,7 @@ def shrink(prop_cfg, session, want, known_flags, budget=60, target_op=None, targ
     bad = lambda cand: bad0(head + cand)
     n = 2
     steps = 0
-    while len(cur) >= 2 and steps < budget:
+    while len(cur) >= 2 and steps < budget and time.time() < t_end:
         chunk = max(1, len(cur) // n)
         reduced = False
         for i in range(0, len(cur), chunk):
